@@ -370,6 +370,13 @@ func genC01(g *G) {
 	for _, in := range longIDNNames() {
 		add(in, "")
 	}
+	// lines beyond bufio's 64 KiB token limit, in the middle and at the end of a text
+	for _, n := range []int{65535, 65537, 70000} {
+		long := "1.2.3.4 " + strings.Repeat("a", n-8)
+		add("::1 x\n"+long+"\n::1 y\n", "")
+		add(long, "")
+		add("# "+strings.Repeat("c", n)+"\n1.2.3.4 a", "")
+	}
 	// token soup from the grammars of the other properties
 	toks := []string{"", "a", "1", "255", "256", "00", "-", "_", ".", "..", ":", "::", "%", "[", "]", "/", "#", " ", "\t", "\n", "\r\n", "é", "\xff", "\x00", "xn--", "1.2.3.4", "::1", "fe80::1%e",
 		"host.example", strings.Repeat("a", 63), strings.Repeat("a", 64), strings.Repeat("a.", 127), "http://", "u:p@", "?", "1h", "m", "s", "0", "-1", "\"", "\\", "null", "{", "::ffff:1.2.3.4", "1.2.3.4/8", "K", "ſ", "İ",
